@@ -14,21 +14,341 @@ Lemma sls_app : forall a b,
   end.
 Proof.
   induction a as [|c a IH]; intros b.
-  - cbn [app split_last_slash]. destruct (split_last_slash b) as [[p q]|]; [reflexivity|].
-    unfold slash. reflexivity.
+  - cbn [app split_last_slash]. destruct (split_last_slash b) as [[p q]|]; reflexivity.
   - cbn [app]. cbn [split_last_slash]. rewrite IH.
     destruct (split_last_slash b) as [[p q]|]; reflexivity.
 Qed.
 
-(** the string the hook hashes always has a non-empty path, so the hook's denomination is always "ibc/HASH" *)
+Lemma sls_join : forall s p b, split_last_slash s = Some (p, b) -> s = p ++ slash :: b.
+Proof.
+  induction s as [|c s IH]; intros p b H; cbn [split_last_slash] in H; [discriminate|].
+  destruct (split_last_slash s) as [[p' b']|] eqn:E.
+  - inversion H; subst. cbn [app]. f_equal. apply IH. reflexivity.
+  - destruct (Byte.eqb c slash) eqn:Eb; [|discriminate]. inversion H; subst.
+    apply Byte.byte_dec_bl in Eb. subst. reflexivity.
+Qed.
+
+Lemma sls_none_no_slash : forall s, split_last_slash s = None -> ~ In slash s.
+Proof.
+  induction s as [|c s IH]; intros H; cbn [split_last_slash] in H; [intros []|].
+  destruct (split_last_slash s) as [[p' b']|] eqn:E; [discriminate|].
+  destruct (Byte.eqb c slash) eqn:Eb; [discriminate|].
+  intros [Hc|Hin]; [subst; rewrite Byte.byte_dec_lb in Eb by reflexivity; discriminate | exact (IH eq_refl Hin)].
+Qed.
+
+Lemma sls_base_no_slash : forall s p b, split_last_slash s = Some (p, b) -> ~ In slash b.
+Proof.
+  induction s as [|c s IH]; intros p b H; cbn [split_last_slash] in H; [discriminate|].
+  destruct (split_last_slash s) as [[p' b']|] eqn:E.
+  - inversion H; subst. eapply IH; reflexivity.
+  - destruct (Byte.eqb c slash); [|discriminate]. inversion H; subst. apply sls_none_no_slash; assumption.
+Qed.
+
+(** ParseDenomTrace(raw).IBCDenom() of a string with a non-empty path *)
+Lemma trace_ibc_denom_path : forall sha raw p b,
+  split_last_slash raw = Some (p, b) -> p <> [] -> trace_ibc_denom sha raw = ibc_slash ++ hex_upper (sha raw).
+Proof.
+  intros sha raw p b E Hp. unfold trace_ibc_denom. rewrite E.
+  destruct p as [|c p]; [contradiction|]. rewrite (sls_join _ _ _ E). reflexivity.
+Qed.
+
+(** the string the hook hashes always has a non-empty path: the hook's denomination is always "ibc/" + HEX(sha256) *)
 Lemma ibc_denom_shape : forall sha port chan denom,
   ibc_denom sha port chan denom = ibc_slash ++ hex_upper (sha (denom_prefix port chan ++ denom)).
 Proof.
-  intros sha port chan denom. unfold ibc_denom, trace_ibc_denom, denom_prefix.
-  replace ((port ++ [slash] ++ chan ++ [slash]) ++ denom) with (port ++ slash :: (chan ++ slash :: denom))
-    by (rewrite <- !app_assoc; reflexivity).
-  rewrite sls_app, sls_app.
+  intros sha port chan denom. unfold ibc_denom.
+  assert (E : denom_prefix port chan ++ denom = port ++ slash :: (chan ++ slash :: denom)).
+  { unfold denom_prefix. rewrite <- !app_assoc. reflexivity. }
+  rewrite E.
+  pose proof (sls_app port (chan ++ slash :: denom)) as H1. rewrite (sls_app chan denom) in H1.
   destruct (split_last_slash denom) as [[p q]|].
-  - destruct port; cbn [app]; [|].
-    + rewrite <- (sls_join_eq chan p q) at 1. all: fail.
-Abort.
+  - eapply trace_ibc_denom_path; [exact H1|]. destruct port; discriminate.
+  - eapply trace_ibc_denom_path; [exact H1|]. destruct port; discriminate.
+Qed.
+
+(** hex_upper is injective *)
+Lemma hex_digit_inj : forall a b, (a < 16)%N -> (b < 16)%N -> hex_digit a = hex_digit b -> a = b.
+Proof.
+  intros a b Ha Hb.
+  assert (Hx : forall n, (n < 16)%N -> In n [0;1;2;3;4;5;6;7;8;9;10;11;12;13;14;15]%N).
+  { intros n Hn. rewrite <- (N2Nat.id n). assert (Hk : (N.to_nat n < 16)%nat) by lia.
+    destruct (N.to_nat n) as [|[|[|[|[|[|[|[|[|[|[|[|[|[|[|[|k]]]]]]]]]]]]]]]]; [..|lia];
+      cbn; repeat (first [left; reflexivity | right]). }
+  pose proof (Hx a Ha) as Ia. pose proof (Hx b Hb) as Ib. cbn [In] in Ia, Ib.
+  repeat (destruct Ia as [Ia|Ia]; [subst a|]); try contradiction;
+  repeat (destruct Ib as [Ib|Ib]; [subst b|]); try contradiction; cbn; intros H; try reflexivity; discriminate H.
+Qed.
+
+Lemma hex_upper_inj : forall a b, hex_upper a = hex_upper b -> a = b.
+Proof.
+  induction a as [|x a IH]; intros [|y b] H; cbn [hex_upper] in H; try discriminate; [reflexivity|].
+  inversion H as [[H1 H2 H3]].
+  assert (Hx : (Byte.to_N x < 256)%N) by (pose proof (Byte.to_N_bounded x); lia).
+  assert (Hy : (Byte.to_N y < 256)%N) by (pose proof (Byte.to_N_bounded y); lia).
+  apply hex_digit_inj in H1; [|apply N.div_lt_upper_bound; lia|apply N.div_lt_upper_bound; lia].
+  apply hex_digit_inj in H2; [|apply N.mod_lt; lia|apply N.mod_lt; lia].
+  f_equal; [|apply IH; assumption].
+  apply byte_to_N_inj.
+  rewrite (N.div_mod (Byte.to_N x) 16), (N.div_mod (Byte.to_N y) 16) by lia. rewrite H1, H2. reflexivity.
+Qed.
+
+Lemma hex_digit_not_slash : forall n, hex_digit n <> slash.
+Proof.
+  intros n. unfold hex_digit.
+  destruct (N.to_nat n) as [|[|[|[|[|[|[|[|[|[|[|[|[|[|[|[|[|k]]]]]]]]]]]]]]]]]; cbn; try discriminate.
+  all: try (destruct k; discriminate).
+Qed.
+
+Lemma hex_upper_no_slash : forall b, ~ In slash (hex_upper b).
+Proof.
+  induction b as [|c b IH]; cbn [hex_upper]; [intros []|].
+  intros [H|[H|H]]; [exact (hex_digit_not_slash _ H)|exact (hex_digit_not_slash _ H)|exact (IH H)].
+Qed.
+
+(** ** Returning tokens: the denomination the hook computes is never the one the transfer application releases *)
+Lemma returning_denoms_differ : forall sha pkt d,
+  receiver_chain_is_source (pk_sport pkt) (pk_schan pkt) (fd_denom d) = true ->
+  (* no sha256 collision between the hook's string and the (strictly shorter) remaining trace *)
+  sha (denom_prefix (pk_dport pkt) (pk_dchan pkt) ++ fd_denom d) <>
+  sha (skipn (length (denom_prefix (pk_sport pkt) (pk_schan pkt))) (fd_denom d)) ->
+  ibc_denom sha (pk_dport pkt) (pk_dchan pkt) (fd_denom d) <> received_denom sha pkt d.
+Proof.
+  intros sha pkt d Hret Hsha. unfold received_denom. rewrite Hret. rewrite ibc_denom_shape.
+  set (un := skipn _ (fd_denom d)) in *.
+  unfold trace_ibc_denom.
+  destruct (split_last_slash un) as [[p b]|] eqn:E.
+  - destruct p as [|c p].
+    + (* "/base": the base has no "/" while "ibc/.." has one *)
+      intros H. apply (sls_base_no_slash _ _ _ E). rewrite <- H. unfold ibc_slash. cbn. unfold slash. tauto.
+    + change ((c :: p) ++ [slash] ++ b) with ((c :: p) ++ slash :: b).
+      rewrite <- (sls_join _ _ _ E). intros H. apply app_inv_head in H. apply hex_upper_inj in H. contradiction.
+  - intros H. apply (sls_none_no_slash _ E). rewrite <- H. unfold ibc_slash. cbn. unfold slash. tauto.
+Qed.
+
+(** The string behind the hook's denomination for a returning packet can never be the trace of a voucher the
+    transfer application mints over the same channel: a packet carrying that trace would itself be "returning"
+    (unescrow), not "mint". *)
+Lemma returning_preimage_never_minted : forall pkt d pkt' d',
+  pk_sport pkt' = pk_sport pkt -> pk_schan pkt' = pk_schan pkt ->
+  pk_dport pkt' = pk_dport pkt -> pk_dchan pkt' = pk_dchan pkt ->
+  receiver_chain_is_source (pk_sport pkt) (pk_schan pkt) (fd_denom d) = true ->
+  (* pkt' is received in "mint" mode with exactly the hook's string as trace *)
+  denom_prefix (pk_dport pkt') (pk_dchan pkt') ++ fd_denom d' =
+  denom_prefix (pk_dport pkt) (pk_dchan pkt) ++ fd_denom d ->
+  receiver_chain_is_source (pk_sport pkt') (pk_schan pkt') (fd_denom d') = true.
+Proof.
+  intros pkt d pkt' d' E1 E2 E3 E4 Hret Heq. rewrite E3, E4 in Heq. apply app_inv_head in Heq.
+  rewrite E1, E2, Heq. exact Hret.
+Qed.
+
+(** * common.BytesToAddress *)
+Lemma evm_addr_20 : forall b, length b = 20%nat -> evm_addr b = b.
+Proof. intros b H. unfold evm_addr. rewrite H. reflexivity. Qed.
+
+Lemma evm_addr_length : forall b, length (evm_addr b) = 20%nat.
+Proof.
+  intros b. unfold evm_addr. destruct (20 <=? length b)%nat eqn:E.
+  - apply Nat.leb_le in E. rewrite skipn_length. lia.
+  - apply Nat.leb_gt in E. rewrite app_length, repeat_length. lia.
+Qed.
+
+(** an address that is not 20 bytes long is never its own EVM address *)
+Lemma evm_addr_other : forall b, length b <> 20%nat -> evm_addr b <> b.
+Proof. intros b H E. apply H. rewrite <- E. apply evm_addr_length. Qed.
+
+(** * The middleware *)
+Section Generic.
+  Variable state : Type.
+  Variable sha256 : bytes -> bytes.
+  Variable decode : bytes -> option ftpd.
+  Variable parse_int : bytes -> option Z.
+  Variable from_bech32 : bytes -> option bytes.
+  Variable is_registered : state -> bytes -> bool.
+  Variable convert : state -> conv_msg -> outcome state.
+  Variable transfer_recv : state -> packet -> outcome (state * ack).
+
+  Notation hook_gen := (hook_gen state sha256 decode parse_int from_bech32 is_registered convert).
+  Notation hook := (hook state sha256 decode parse_int from_bech32 is_registered convert).
+  Notation hook_old := (hook_old state sha256 decode parse_int from_bech32 is_registered convert).
+  Notation middleware := (middleware state sha256 decode parse_int from_bech32 is_registered convert transfer_recv).
+  Notation middleware_old := (middleware_old state sha256 decode parse_int from_bech32 is_registered convert transfer_recv).
+  Notation bare := (bare state transfer_recv).
+  Notation core_recv := (core_recv state sha256).
+  Notation hook_msg := (hook_msg sha256 from_bech32).
+
+  (** every return statement of the hook hands back [ret ack]; the state changes only on the last path, and then
+      it is exactly ConvertCoin's result for the message built from the packet *)
+  Lemma hook_gen_spec : forall ret st pkt a st' oa p,
+    hook_gen ret st pkt a = Ok (st', oa, p) ->
+    oa = ret a /\
+    ((st' = st /\ p <> HConverted) \/
+     (p = HConverted /\ exists d amt,
+        decode (pk_data pkt) = Some d /\ parse_int (fd_amount d) = Some amt /\ 0 <= amt /\
+        is_registered st (cm_denom (hook_msg pkt d amt)) = true /\
+        convert st (hook_msg pkt d amt) = Ok st')).
+  Proof.
+    intros ret st pkt a st' oa p H. unfold Ics20.hook_gen in H.
+    destruct (decode (pk_data pkt)) as [d|] eqn:Ed.
+    2:{ inversion H; subst. split; [reflexivity|left; split; [reflexivity|discriminate]]. }
+    destruct (parse_int (fd_amount d)) as [amt|] eqn:Ea.
+    2:{ inversion H; subst. split; [reflexivity|left; split; [reflexivity|discriminate]]. }
+    destruct (is_registered st _) eqn:Er; cbn [negb] in H.
+    2:{ inversion H; subst. split; [reflexivity|left; split; [reflexivity|discriminate]]. }
+    destruct ((amt <? 0) || _) eqn:Ep; [discriminate|].
+    apply orb_false_iff in Ep. destruct Ep as [Ep _]. apply Z.ltb_ge in Ep.
+    destruct (convert st _) as [s2| |] eqn:Ec; [| |discriminate].
+    - inversion H; subst. split; [reflexivity|]. right. split; [reflexivity|].
+      exists d, amt. repeat split; assumption.
+    - inversion H; subst. split; [reflexivity|left; split; [reflexivity|discriminate]].
+  Qed.
+
+  (** ** Transparency: whatever the middleware returns is the wrapped application's acknowledgement *)
+  Lemma middleware_transparent : forall st pkt st2 oa hp,
+    middleware st pkt = Ok (st2, oa, hp) ->
+    exists st1 a, transfer_recv st pkt = Ok (st1, a) /\ oa = Some a.
+  Proof.
+    intros st pkt st2 oa hp H. unfold Ics20.middleware, middleware_gen in H.
+    destruct (transfer_recv st pkt) as [[st1 a]| |] eqn:Et; try discriminate.
+    exists st1, a. split; [reflexivity|].
+    destruct (ack_success a); cbn [negb] in H.
+    - destruct (hook st1 pkt a) as [[[s o] p]| |] eqn:Eh; try discriminate.
+      inversion H; subst. apply hook_gen_spec in Eh. tauto.
+    - inversion H; reflexivity.
+  Qed.
+
+  (** the middleware fails / panics only where the wrapped application does, or where the hook panics *)
+  Lemma middleware_err_iff : forall st pkt, middleware st pkt = Err <-> transfer_recv st pkt = Err.
+  Proof.
+    intros st pkt. unfold Ics20.middleware, middleware_gen.
+    destruct (transfer_recv st pkt) as [[st1 a]| |] eqn:Et.
+    - split; [|discriminate]. intros H. exfalso.
+      destruct (ack_success a); cbn [negb] in H; [|discriminate].
+      destruct (hook st1 pkt a) as [[[s o] p]| |] eqn:Eh; try discriminate.
+      unfold Ics20.hook, Ics20.hook_gen in Eh.
+      destruct (decode _); [|discriminate]. destruct (parse_int _); [|discriminate].
+      destruct (negb _); [discriminate|]. destruct (_ || _); [discriminate|].
+      destruct (convert _ _); discriminate.
+    - tauto.
+    - split; discriminate.
+  Qed.
+
+  (** Hypotheses under which the hook cannot panic (all are facts about library code the model takes as oracles). *)
+  Definition transfer_sound : Prop := forall st pkt st1 a,
+    transfer_recv st pkt = Ok (st1, a) -> ack_success a = true ->
+    exists d amt, decode (pk_data pkt) = Some d /\ parse_int (fd_amount d) = Some amt /\ 0 < amt.
+
+  Lemma hex_upper_tail : forall b, forallb is_denom_tail (hex_upper b) = true.
+  Proof.
+    induction b as [|c b IH]; [reflexivity|]. cbn [hex_upper forallb]. rewrite IH.
+    assert (H : forall n, is_denom_tail (hex_digit n) = true).
+    { intros n. unfold hex_digit.
+      destruct (N.to_nat n) as [|[|[|[|[|[|[|[|[|[|[|[|[|[|[|[|[|k]]]]]]]]]]]]]]]]]; try reflexivity. all: try (destruct k; reflexivity). }
+    rewrite !H. reflexivity.
+  Qed.
+
+  Lemma hex_upper_length : forall b, length (hex_upper b) = (2 * length b)%nat.
+  Proof. induction b as [|c b IH]; [reflexivity|]. cbn [hex_upper length]. rewrite IH. lia. Qed.
+
+  Lemma ibc_denom_valid : forall port chan denom,
+    length (sha256 (denom_prefix port chan ++ denom)) = 32%nat ->
+    valid_denom (ibc_denom sha256 port chan denom) = true.
+  Proof.
+    intros port chan denom H. rewrite ibc_denom_shape. unfold ibc_slash. cbn [app valid_denom forallb].
+    rewrite hex_upper_tail. cbn [length]. rewrite hex_upper_length, H. reflexivity.
+  Qed.
+
+  Lemma middleware_no_new_panic :
+    transfer_sound ->
+    (forall x, length (sha256 x) = 32%nat) ->
+    (forall st m, convert st m <> Panic) ->
+    forall st pkt st1 a, transfer_recv st pkt = Ok (st1, a) ->
+    exists st2 hp, middleware st pkt = Ok (st2, Some a, hp).
+  Proof.
+    intros Hts Hsha Hcv st pkt st1 a Et. unfold Ics20.middleware, middleware_gen. rewrite Et.
+    destruct (ack_success a) eqn:Es; cbn [negb]; [|eauto].
+    destruct (Hts _ _ _ _ Et Es) as (d & amt & Ed & Ea & Hpos).
+    unfold Ics20.hook, Ics20.hook_gen. rewrite Ed, Ea.
+    destruct (is_registered st1 _); cbn [negb]; [|eauto].
+    replace (amt <? 0) with false by (symmetry; apply Z.ltb_ge; lia).
+    cbn [hook_msg Ics20.hook_msg cm_denom]. rewrite ibc_denom_valid by apply Hsha. cbn [negb orb].
+    destruct (convert st1 _) as [s2| |] eqn:Ec; [eauto|eauto|]. exfalso. exact (Hcv _ _ Ec).
+  Qed.
+
+  (** ** Failed transfer: the hook is not even called *)
+  Lemma failed_transfer_passthrough : forall st pkt st1 a,
+    transfer_recv st pkt = Ok (st1, a) -> ack_success a = false ->
+    middleware st pkt = Ok (st1, Some a, None).
+  Proof. intros st pkt st1 a Et Es. unfold Ics20.middleware, middleware_gen. rewrite Et, Es. reflexivity. Qed.
+
+  (** ** Atomicity, structural form: after the middleware the state is the wrapped application's, or exactly
+      ConvertCoin's successful result on it for (voucher of the packet, packet amount, receiver) *)
+  Lemma middleware_state : forall st pkt st1 a st2 oa hp,
+    transfer_recv st pkt = Ok (st1, a) ->
+    middleware st pkt = Ok (st2, oa, hp) ->
+    (st2 = st1 /\ hp <> Some HConverted) \/
+    (hp = Some HConverted /\ ack_success a = true /\ exists d amt,
+       decode (pk_data pkt) = Some d /\ parse_int (fd_amount d) = Some amt /\ 0 <= amt /\
+       is_registered st1 (cm_denom (hook_msg pkt d amt)) = true /\
+       convert st1 (hook_msg pkt d amt) = Ok st2).
+  Proof.
+    intros st pkt st1 a st2 oa hp Et H. unfold Ics20.middleware, middleware_gen in H. rewrite Et in H.
+    destruct (ack_success a) eqn:Es; cbn [negb] in H.
+    - destruct (hook st1 pkt a) as [[[s o] p]| |] eqn:Eh; try discriminate.
+      inversion H; subst. apply hook_gen_spec in Eh. destruct Eh as [_ [[E Hp]|[Hp Hx]]].
+      + left. split; [assumption|]. intros X; inversion X; contradiction.
+      + right. subst p. split; [reflexivity|]. split; [reflexivity|assumption].
+    - inversion H; subst. left. split; [reflexivity|discriminate].
+  Qed.
+
+  (** ** What ibc-go core commits *)
+  Lemma core_commits_transfer_ack : forall st pkt st' oc,
+    core_recv middleware st pkt = Ok (st', oc) ->
+    exists st1 a, transfer_recv st pkt = Ok (st1, a) /\ ack_bytes a <> [] /\
+      oc = Some (sha256 (ack_bytes a)) /\
+      (ack_success a = false -> st' = st) /\
+      exists st'', core_recv bare st pkt = Ok (st'', oc).
+  Proof.
+    intros st pkt st' oc H. unfold Ics20.core_recv in H.
+    destruct (middleware st pkt) as [[[s2 oa] hp]| |] eqn:Em; try discriminate.
+    destruct (middleware_transparent _ _ _ _ _ Em) as (st1 & a & Et & Eo). subst oa.
+    exists st1, a. split; [assumption|].
+    destruct (ack_bytes a) as [|b0 bs] eqn:Eb; [discriminate|].
+    inversion H; subst. split; [discriminate|]. split; [reflexivity|]. split.
+    - intros Es. rewrite Es. reflexivity.
+    - unfold Ics20.core_recv, Ics20.bare. rewrite Et, Eb. eauto.
+  Qed.
+
+  (** conversely: whenever the bare application's acknowledgement would be committed, the middleware's is the same
+      (unless the hook panics, which the hypotheses of [middleware_no_new_panic] exclude) *)
+  Lemma core_same_ack_as_bare : forall st pkt sb oc st2 oa hp,
+    core_recv bare st pkt = Ok (sb, oc) ->
+    middleware st pkt = Ok (st2, oa, hp) ->
+    exists sm, core_recv middleware st pkt = Ok (sm, oc) /\ oc <> None.
+  Proof.
+    intros st pkt sb oc st2 oa hp Hb Hm. unfold Ics20.core_recv in *. rewrite Hm.
+    destruct (middleware_transparent _ _ _ _ _ Hm) as (st1 & a & Et & Eo). subst oa.
+    unfold Ics20.bare in Hb. rewrite Et in Hb.
+    destruct (ack_bytes a); [discriminate|]. inversion Hb; subst. eexists; split; [reflexivity|discriminate].
+  Qed.
+
+  (** ** The code before 6fec139: a successful transfer is never acknowledged, although its effects are written *)
+  Lemma old_never_acknowledges : forall st pkt st1 a st' oc,
+    transfer_recv st pkt = Ok (st1, a) -> ack_success a = true ->
+    core_recv middleware_old st pkt = Ok (st', oc) ->
+    oc = None /\ exists hp, middleware_old st pkt = Ok (st', None, hp).
+  Proof.
+    intros st pkt st1 a st' oc Et Es H. unfold Ics20.core_recv in H.
+    destruct (middleware_old st pkt) as [[[s2 oa] hp]| |] eqn:Em; try discriminate.
+    unfold Ics20.middleware_old, middleware_gen in Em. rewrite Et, Es in Em. cbn [negb] in Em.
+    destruct (hook_old st1 pkt a) as [[[s o] p]| |] eqn:Eh; try discriminate.
+    inversion Em; subst. apply hook_gen_spec in Eh. destruct Eh as [Eo _]. subst oa.
+    inversion H; subst. split; [reflexivity|]. eauto.
+  Qed.
+
+  (** ** The other callbacks *)
+  Lemma on_ack_transparent : forall app_ack st pkt a, on_ack_gen state app_ack st pkt a = app_ack st pkt a.
+  Proof. intros. unfold on_ack_gen. destruct (app_ack st pkt a); reflexivity. Qed.
+
+  Lemma on_timeout_transparent : forall app_to st pkt, on_timeout_gen state app_to st pkt = app_to st pkt.
+  Proof. reflexivity. Qed.
+End Generic.
